@@ -1206,9 +1206,6 @@ TRUSTED = ['coq/gen/Shipped.v is regenerated on every run by props/c10.py regen(
 ASSUMPTIONS = ['the object context is finite and given (loading is C03/C04)',
                'spec= is the 64-step unfolding of the declarative semantics: exact for the generated documents (chains < 40)']
 KF_ANY = 'C10-any-typed-entries-unchecked'
-KF_KID = 'C10-direct-kid-accepted'
-KF_MEMO = 'C10-memo-ignores-predicate-and-indirection'
-KF_ALT = 'C10-examined-alternative-rejects-conforming'
 
 
 def _verdict(obs):
@@ -1236,47 +1233,19 @@ def _mut(tag):
     return re.sub(r'-\d+$', '', tag[4:].split('@')[0])
 
 
-def _values(case):
-    """multiset of the texts of all sub-objects of the case (context + root)."""
-    _, ctx, root = case.split(' ')
-    cnt = {}
-
-    def walk(o):
-        t = show(o)
-        cnt[t] = cnt.get(t, 0) + 1
-        if o[0] == 'A':
-            for x in o[1]:
-                walk(x)
-        elif o[0] in 'DS':
-            for x in o[1].values():
-                walk(x)
-    if ctx != '-':
-        for part in ctx.split(';'):
-            walk(parse_obj(part.split('=', 1)[1]))
-    walk(parse_obj(root))
-    return cnt
-
-
 def known_class(kid, case, obs, prof):
+    """C10-any-typed-entries-unchecked: the violated rule sits on a dictionary entry whose declared check has type
+    Any (/Parent: any value but necessarily indirect; the name trees of /Names; the number tree of /PageLabels)."""
+    if kid != KF_ANY or _verdict(obs) != 'accept':
+        return False
     tag = case.split(' ', 1)[0]
-    v = _verdict(obs)
-    if tag.startswith('bad:') and v == 'accept':
+    if tag.startswith('bad:'):
         m = _mut(tag)
-        any_typed = m in ('parent-direct-dict', 'parent-array', 'parent-int') or m.startswith('namedict-tree-') or \
+        return m in ('parent-direct-dict', 'parent-array', 'parent-int') or m.startswith('namedict-tree-') or \
             m.startswith('numtree-tree-')
-        if kid == KF_ANY:
-            return any_typed
-        if kid == KF_KID:
-            return m == 'kid-direct'
-        if kid == KF_MEMO:
-            # the memo of examined (object, check) pairs compares checks by type only: needs a value occurring twice
-            return not any_typed and m != 'kid-direct' and any(n >= 2 for n in _values(case).values())
-    if tag.startswith('sub:') and v == 'accept' and kid == KF_ANY:
+    if tag.startswith('sub:'):
         # the name dictionary on its own: its entries are the Any-typed name trees
         return tag.split(':')[1] == hk('Names') and tag.split(':')[2] == 'bad'
-    if tag == 'ok' and v.startswith('reject') and kid == KF_ALT:
-        # a value under a Disjunct-typed entry that was examined before under an equal type
-        return any(n >= 2 for n in _values(case).values())
     return False
 
 
